@@ -29,9 +29,12 @@ spec -> code
            COMPONENTS.dirs pointing at the target directory (registry entry, template content, media paths).
   MC_X05U  CSpec: every template content of <= n symbols (text, old block opener / end, {% component %},
            {% endcomponent %}, self-closing tag; presentations: arguments, single quotes, no blanks, multi-line, CRLF
-           text, non-ASCII text ...) with the documented rewrite, run twice (idempotence) on real files;
-           TSpec: every tree of <= k files over 9 locations x 6 extensions x {old, plain} under every invocation
-           (--path given / omitted, COMPONENTS.dirs default / custom) with the admitted contents of each file.
+           text, non-ASCII text ...) with the documented rewrite and the contents admitted for a *.html / *.py file;
+           all of them become real files and the command runs twice over them (idempotence);
+           TSpec: every tree of <= k files over 9 locations x 6 extensions x {old, plain} (+ an image that is not
+           text in each location) under every invocation (--path given / omitted, COMPONENTS.dirs default / custom)
+           with the admitted contents of each file.
+  TLC runs are started ahead in child processes while earlier exports are replayed (TlcJob).
 code -> spec
   seeded random sessions (user writes / removes files, startcomponent and upgradecomponent with random options, 4
   names, more file names, every way of designating the directory) recorded on the real commands and validated in one
@@ -595,8 +598,8 @@ def mc_start(chk: Check, tag: str, names: List[str], wheres: List[str], seeds: L
     if not rows or len(rows) != generated - len(seeds):
         raise MachineryError(f"MC_X05 {tag}: {len(rows)} rows exported for {generated} generated states")
     seen, uniq = set(), []
-    for row in rows:                      # one line per chosen outcome: keep one per (source state, invocation)
-        k = canon([row["seed"], row["pre"], row["predirs"], row["inv"]])
+    for row in rows:                      # one line per chosen outcome: keep one per (source state, invocation);
+        k = canon([row["seed"], row["how"]])   # a source state is expanded once (VIEW), so seed + history identify it
         if k not in seen:
             seen.add(k)
             uniq.append(row)
@@ -617,12 +620,9 @@ def mc_start(chk: Check, tag: str, names: List[str], wheres: List[str], seeds: L
         raise MachineryError("a replay job hung")
     for row, r in zip(rows, results):
         inv = row["inv"]
-        case = {"kind": "start-transition", "row": {k: row[k] for k in row if k not in ("deep", "twin")}}
-        chk.count([row["seed"], row["pre"], row["predirs"], inv],
-                  nontrivial=bool(row["pre"]) or not inv["dry"])
-        if r.get("hang"):
-            chk.violation(case, {"stage": "hang"})
-            continue
+        chk.count(["start", row["seed"], row["how"]], nontrivial=bool(row["pre"]) or not inv["dry"])
+        if r["v"] != "ok":
+            case = {"kind": "start-transition", "row": {k: row[k] for k in row if k not in ("deep", "twin")}}
         chk.add("start_transitions_replayed")
         chk.add("start_source_state_" + r.get("note", "history"))
         chk.add("start_verbose_twins", r.get("twin", 0))
@@ -792,7 +792,7 @@ def replay_contents(chk: Check, rows: List[Dict[str, Any]], ext: str = ".html") 
             case = {"kind": "upgrade-content", "row": row, "ext": ext}
             chk.count(["content", row["s"]], nontrivial=any(x["k"] != "T" for x in row["s"]))
             chk.add("upgrade_contents_replayed")
-            bad = judge_content(row, src[n], first[n], second[n])
+            bad = judge_content(row, ext, src[n], first[n], second[n])
             for kind, keys, detail in bad:
                 if keys:
                     for k in keys:
@@ -805,20 +805,23 @@ def replay_contents(chk: Check, rows: List[Dict[str, Any]], ext: str = ".html") 
         shutil.rmtree(root, ignore_errors=True)
 
 
-def judge_content(row: Dict[str, Any], src: bytes, first: bytes, second: bytes) -> List[Tuple[str, Any, Any]]:
+def judge_content(row: Dict[str, Any], ext: str, src: bytes, first: bytes, second: bytes) -> List[Tuple[str, Any, Any]]:
+    """Failures of one content: [(stage, keys of the named deviations that explain it or None, detail)]."""
     out = []
     obs = project_content(first)
-    unchanged = row["exp"] == row["s"]
-    ok1 = agrees(obs, row["exp"]) and (not unchanged or first == src)
+    # admitted after one run (TLC: MgmtCommands!AdmittedAfter for this extension); an unchanged content means same bytes
+    ok1 = any(agrees(obs, a) and (a != row["s"] or first == src) for a in row["adm"][ext])
     if not ok1:
         keys = classify(obs, row["devs"])
         out.append(("first", keys, {"stage": "first run", "input": src.decode(), "content": _show(row["s"]),
-                                    "expected": _show(row["exp"]), "observed": _show(obs),
+                                    "admitted": [_show(a) for a in row["adm"][ext]], "observed": _show(obs),
                                     "observed_text": first.decode("utf-8", "replace")}))
         return out
-    if second != first:                   # running twice = running once
+    if second != first:                   # running twice = running once (Upgrade(Upgrade(s)) = Upgrade(s))
         obs2 = project_content(second)
-        keys = classify(obs2, row["devs2"])
+        if first == src and agrees(obs2, row["exp"]) and row["exp"] in row["adm"][ext]:
+            return out                    # left alone by the first run, rewritten by the second: both admitted
+        keys = classify(obs2, row["devs2"]) if agrees(obs, row["exp"]) else None
         out.append(("second", keys, {"stage": "second run (idempotence)", "input": src.decode(),
                                      "after_first_run": first.decode("utf-8", "replace"),
                                      "after_second_run": second.decode("utf-8", "replace"),
